@@ -4,6 +4,7 @@
 -/
 import Fx.Eval
 import Fx.Lemmas.NoPanic
+import Fx.Supported
 namespace Fx
 
 def primNames : List String := ["u32", "u64", "i32", "i64", "f32", "f64", "bool"]
@@ -212,27 +213,39 @@ def constResolves (m : Module) : Nat → String → Bool
        | some (.const _ v') => constResolves m fuel v'
        | _ => false)
 
-def declOk (a : Ast) (m : Module) (d : TypeDecl) : Bool :=
-  match d with
+/-- the part of `declOk` that is about *types*: every type written in the declaration resolves (with a parameter list iff the
+    named declaration has one), and the declaration itself carries the parameter exactly when it is used
+    (proved for every supported specification: `C07_declarations_fit`) -/
+def declFits (m : Module) : TypeDecl → Bool
+  | .struct _ g fs => fs.all (fun f => f.2.wellFormed m) && (fs.any (·.2.usesT)) == g
+  | .union _ g vs =>
+    vs.all (fun v => match v.2 with | some t => t.wellFormed m | none => true) &&
+    (vs.any fun v => match v.2 with | some t => t.usesT | none => false) == g
+  | .typedef _ g _ inner => inner.wellFormed m && inner.usesT == g
+  | _ => true
+
+/-- the part of `declOk` that is about *names and values*: identifiers, reserved names, the bindings of finding K9, duplicate
+    fields / variants / members / values, constant values that resolve and fit -/
+def declHygiene (m : Module) : TypeDecl → Bool
   | .const n v => isIdent n && !(reservedTypeNames.contains n) &&
       -- a constant named like a `let` binding or like the `d` of `d => return Err(..)` does not compile (E0530 / E0004); one named `c`
       -- does: `c if c == E::V as ty` then reads `c` as a constant pattern (finding K14 — it compiles and decodes wrongly)
       !(((bindingNamesOf m).filter (· != "c")).contains n) &&
       constResolves m (m.types.length + 1) v
-  | .struct n g fs =>
-    isIdent n && !(reservedTypeNames.contains n) && fs.all (fun f => f.2.wellFormed m && isIdent (safeName f.1)) &&
-    (fs.any (·.2.usesT)) == g && ((fs.map fun f => safeName f.1).eraseDups.length == fs.length)
-  | .union n g vs =>
+  | .struct n _ fs =>
+    isIdent n && !(reservedTypeNames.contains n) && fs.all (fun f => isIdent (safeName f.1)) &&
+    ((fs.map fun f => safeName f.1).eraseDups.length == fs.length)
+  | .union n _ vs =>
     isIdent n && !(reservedTypeNames.contains n) &&
-    vs.all (fun v => isIdent (nonDigitName v.1) && !(isKeyword (nonDigitName v.1)) && (match v.2 with | some t => t.wellFormed m | none => true)) &&
-    (vs.any fun v => match v.2 with | some t => t.usesT | none => false) == g && variantNamesNodup (vs.map (·.1))
+    vs.all (fun v => isIdent (nonDigitName v.1) && !(isKeyword (nonDigitName v.1))) && variantNamesNodup (vs.map (·.1))
   | .enum n vs =>
     isIdent n && !(reservedTypeNames.contains n) && !vs.isEmpty &&
     vs.all (fun v => isIdent v.1 && !(isKeyword v.1) && (match parseIntLit v.2 with | some x => x < 2^32 | none => false)) &&
     ((vs.map (·.1)).eraseDups.length == vs.length) &&
     ((vs.filterMap fun v => parseIntLit v.2).eraseDups.length == vs.length)
-  | .typedef n g _ inner => isIdent n && !(reservedTypeNames.contains n) && !((bindingNamesOf m).contains n) &&
-      inner.wellFormed m && inner.usesT == g
+  | .typedef n _ _ _ => isIdent n && !(reservedTypeNames.contains n) && !((bindingNamesOf m).contains n)
+
+def declOk (_a : Ast) (m : Module) (d : TypeDecl) : Bool := declFits m d && declHygiene m d
 
 /-- names used in a type expression without indirection (`Vec`, `Box`): a cycle through these is an infinite type -/
 def TyExpr.directRefs : TyExpr → List String
@@ -262,12 +275,53 @@ def noInfiniteType (m : Module) : Bool :=
 def outputOk (a : Ast) (m : Module) : Bool :=
   m.types.all (declOk a m) &&
   m.fromRefMut.all (implOk a m) &&
-  m.fromBytes == m.fromRefMut &&
+  decide (m.fromBytes = m.fromRefMut) &&
   (let tyNames := (m.types.filter isTypeDecl).map declName
    let valNames := m.types.filterMap fun d => match d with
      | .const n _ => some n | .typedef n _ _ _ => some n | _ => none
    tyNames.eraseDups.length == tyNames.length && valNames.eraseDups.length == valNames.length) &&
   (m.fromRefMut.map (·.name)) == (m.sizes.map (·.name)) &&
   noInfiniteType m
+
+/-! ### the judgement, split into its type part and its name part -/
+
+/-- a struct / union declaration carries the byte-container parameter exactly when one of its field / payload types mentions it
+    (what `C13_struct_param_iff_used` / `C13_union_param_iff_used` prove of every `Ast` the front end builds) -/
+def paramsUsed (a : Ast) : Bool :=
+  a.types.all fun kv =>
+    match kv.2 with
+    | .struct s => a.isGeneric kv.1 ==
+        (s.fields.any fun f => (if f.isOptional then TyExpr.optBox (payloadTy a f.fieldValue) else payloadTy a f.fieldValue).usesT)
+    | .union u => a.isGeneric kv.1 == ((unionVariants a u).any fun v => match v.2 with | some t => t.usesT | none => false)
+    | _ => true
+
+/-- the *type* part of `outputOk`: what the three emitters must agree on -/
+def outputTypesOk (a : Ast) (m : Module) : Bool :=
+  m.types.all (declFits m) && m.fromRefMut.all (implFits a m) && decide (m.fromBytes = m.fromRefMut) &&
+  (m.fromRefMut.map (·.name)) == (m.sizes.map (·.name))
+
+/-- the *name* part of `outputOk`: what depends on the names the specification chooses (and on recursion without indirection) -/
+def outputHygiene (m : Module) : Bool :=
+  m.types.all (declHygiene m) && m.fromRefMut.all (implHygiene m) &&
+  (let tyNames := (m.types.filter isTypeDecl).map declName
+   let valNames := m.types.filterMap fun d => match d with
+     | .const n _ => some n | .typedef n _ _ _ => some n | _ => none
+   tyNames.eraseDups.length == tyNames.length && valNames.eraseDups.length == valNames.length) &&
+  noInfiniteType m
+
+theorem all_and' {α} (p q : α → Bool) : ∀ (l : List α), l.all (fun x => p x && q x) = (l.all p && l.all q)
+  | [] => rfl
+  | x :: xs => by
+    simp only [List.all_cons, all_and' p q xs]
+    cases p x <;> cases q x <;> cases xs.all p <;> cases xs.all q <;> rfl
+
+/-- `outputOk` is exactly its two parts -/
+theorem outputOk_split (a : Ast) (m : Module) : outputOk a m = (outputTypesOk a m && outputHygiene m) := by
+  have h1 : m.types.all (declOk a m) = (m.types.all (declFits m) && m.types.all (declHygiene m)) := all_and' _ _ _
+  have h2 : m.fromRefMut.all (implOk a m) = (m.fromRefMut.all (implFits a m) && m.fromRefMut.all (implHygiene m)) := all_and' _ _ _
+  simp only [outputOk, outputTypesOk, outputHygiene, h1, h2]
+  cases m.types.all (declFits m) <;> cases m.types.all (declHygiene m) <;> cases m.fromRefMut.all (implFits a m) <;>
+    cases m.fromRefMut.all (implHygiene m) <;> cases (decide (m.fromBytes = m.fromRefMut)) <;>
+    cases ((m.fromRefMut.map (·.name)) == (m.sizes.map (·.name))) <;> cases noInfiniteType m <;> simp
 
 end Fx
